@@ -39,6 +39,9 @@ def src_off(e):
         oa = src_off(a)
         if oa is not None and b[0] == "int":
             return oa + b[1]
+        ob = src_off(b)
+        if ob is not None and a[0] == "int":
+            return ob + a[1]
         # (source + 1) + extra with extra a literal handled above; symbolic extras rejected
     return None
 
